@@ -45,6 +45,7 @@ func c11Classic(c *vlib.Ctx) {
 			p.Stall = 2
 			p.MaxStream = 20000 // multi-page packets
 		}
+		p.EarlyFIN = 4
 		h := asm.Gen(rd, p)
 		switch rd.Intn(6) {
 		case 0:
@@ -59,6 +60,7 @@ func c11Classic(c *vlib.Ctx) {
 			h.TotalLimit = 10
 		}
 		r := newRun(c, h)
+		r.noContent = h.Features["earlyfin"] // data past a FIN makes the content oracle of C09/C10 meaningless; lifecycle audits still apply
 		nviol := 0
 		r.viol = func(key, desc string) {
 			nviol++
